@@ -20,7 +20,7 @@ func isFailure(pg *Prog, e vlab.PE) bool {
 		return false
 	}
 	c := t.Cmds[j]
-	return c.Exit != 0 && !c.IgnoreError && !t.IgnoreError && !c.Defer
+	return pg.ExitOf(e.Inst(), j) != 0 && !c.IgnoreError && !t.IgnoreError && !c.Defer
 }
 
 // later reports whether (j2,item2) comes after (j,item) in expansion order of task t.
